@@ -62,6 +62,11 @@ func RunStraced(bin string, args []string, o RunOpts, root string, inject []stri
 		o.Timeout = 120 * time.Second
 	}
 	res := RunCmd("strace", sargs, o)
+	if strings.Contains(res.Stderr, "strace: ptrace(") || strings.Contains(res.Stderr, "strace: attach:") {
+		// the tracer itself failed (seen under heavy load: PTRACE_LISTEN: Input/output error): that is no observation
+		// of the traced program. The caller decides what an error means (inconclusive), never a verdict.
+		return res, nil, fmt.Errorf("strace failed: %s", firstLineOf(res.Stderr, "strace: "))
+	}
 	res.Args = append([]string{bin}, args...)
 	files, _ := filepath.Glob(filepath.Join(logDir, "t.*"))
 	sort.Strings(files)
@@ -220,4 +225,13 @@ func (a TreeState) Diff(b TreeState) []string {
 	}
 	sort.Strings(out)
 	return out
+}
+
+func firstLineOf(text, prefix string) string {
+	for _, l := range strings.Split(text, "\n") {
+		if strings.HasPrefix(l, prefix) {
+			return l
+		}
+	}
+	return ""
 }
